@@ -109,7 +109,13 @@ func (mq *MessageQueue) AllocateAndBuildMessage(size uint64, buildMessageFn func
 			return
 		}
 	}
+	if verifhook.Enabled {
+		verifhook.Yield("messagequeue.afterReserve", string(mq.p), mq.network)
+	}
 	if mq.buildMessage(size, buildMessageFn) {
+		if verifhook.Enabled {
+			verifhook.Yield("messagequeue.afterBuild", string(mq.p), mq.network)
+		}
 		mq.signalWork()
 	}
 }
@@ -156,10 +162,19 @@ func (mq *MessageQueue) Shutdown() {
 
 func (mq *MessageQueue) runQueue() {
 	defer func() {
+		if verifhook.Enabled {
+			verifhook.Yield("messagequeue.beforeExit", string(mq.p), mq.network)
+		}
 		_ = mq.allocator.ReleasePeerMemory(mq.p)
 		mq.eventPublisher.Shutdown()
 		mq.onShutdown(mq.p)
+		if verifhook.Enabled {
+			verifhook.Observe("messagequeue.exited", string(mq.p), mq)
+		}
 	}()
+	if verifhook.Enabled {
+		verifhook.Observe("messagequeue.started", string(mq.p), mq)
+	}
 	mq.eventPublisher.Startup()
 	for {
 		if verifhook.Enabled {
@@ -182,6 +197,9 @@ func (mq *MessageQueue) runQueue() {
 			}
 			mq.sendMessage()
 		case <-mq.done:
+			if verifhook.Enabled {
+				verifhook.Yield("messagequeue.doneArm", string(mq.p), mq.network)
+			}
 			select {
 			case <-mq.outgoingWork:
 				for {
